@@ -80,6 +80,10 @@ def special_cases():
     one("mov #1, (pc)+\n.word 5\nclr @(pc)+\n.word 6\n")            # explicit (pc)+
     one("ldf ac1, ac0\nstf ac0, (r1)+\nldf #1, ac4\n")               # ac4 rejected
     one("ldf r1, ac0\nmov %3, %n\nn = 2\n")
+    one("ac0 = 5\nmov ac0, r1\nmov #ac0, @ac0\n")                   # acN outside a floating position: the ordinary symbol
+    one("ac1: .word 0\nldf ac1, ac0\nstf ac2, ac1\ntst ac1\n")        # ... inside one: the accumulator shadows the symbol
+    one("tst ac3\n")                                                  # undefined symbol ac3
+    one("ac4 = 2\nbr ac4 + .\nemt ac4\n")
     one("emt 377\ntrap -3\nmark 77\nspl 7\nsob r0, .\n")
     one("x = 5\nmov x(r1), -x(r2)\nmov @x(r1), @#x\njmp @x\n")
     one("mov a+2(r0), r1\nmov @a+2(r0), -(sp)\na = 10\n")            # hoisting
